@@ -8,6 +8,36 @@ use std::io::{BufRead, Write};
 use std::os::raw::c_char;
 use std::process::{Command, Stdio};
 
+// Allocation accounting for the child: bytes / blocks live in the process, sampled immediately before and after each
+// call into the binding (nothing of the driver's own allocates in between), so that a block the library keeps without
+// handing out a handle -- a leak no later call can see -- shows up without a sanitizer.
+use std::alloc::{GlobalAlloc, Layout, System};
+use std::sync::atomic::{AtomicI64, Ordering};
+static LIVE_BYTES: AtomicI64 = AtomicI64::new(0);
+static LIVE_BLOCKS: AtomicI64 = AtomicI64::new(0);
+struct Counting;
+unsafe impl GlobalAlloc for Counting {
+    unsafe fn alloc(&self, l: Layout) -> *mut u8 {
+        let p = System.alloc(l);
+        if !p.is_null() { LIVE_BYTES.fetch_add(l.size() as i64, Ordering::Relaxed); LIVE_BLOCKS.fetch_add(1, Ordering::Relaxed); }
+        p
+    }
+    unsafe fn dealloc(&self, p: *mut u8, l: Layout) {
+        System.dealloc(p, l);
+        LIVE_BYTES.fetch_sub(l.size() as i64, Ordering::Relaxed); LIVE_BLOCKS.fetch_sub(1, Ordering::Relaxed);
+    }
+    unsafe fn realloc(&self, p: *mut u8, l: Layout, new: usize) -> *mut u8 {
+        let q = System.realloc(p, l, new);
+        if !q.is_null() { LIVE_BYTES.fetch_add(new as i64 - l.size() as i64, Ordering::Relaxed); }
+        q
+    }
+}
+#[global_allocator]
+static ALLOC: Counting = Counting;
+fn live() -> (i64, i64) { (LIVE_BYTES.load(Ordering::Relaxed), LIVE_BLOCKS.load(Ordering::Relaxed)) }
+/// evaluate one call into the binding and report what it left allocated
+macro_rules! ffi { ($rec:ident, $e:expr) => {{ let (b0, k0) = live(); let r = $e; let (b1, k1) = live(); $rec["dbytes"] = json!(b1 - b0); $rec["dblocks"] = json!(k1 - k0); r }}; }
+
 struct Rng(u64);
 impl Rng {
     fn next(&mut self) -> u64 {
@@ -40,6 +70,13 @@ fn child() {
     let stdin = std::io::stdin();
     let mut handles: Vec<*mut CChemicalComposition> = Vec::new();
     let out = std::io::stdout();
+    {   // initialise the lazily built periodic table (and anything else the first call sets up once) before measuring
+        let s = cstr(b"C[13]2H4O"); let mut p: *mut CChemicalComposition = std::ptr::null_mut();
+        if parse_formula(s.as_ptr() as *mut c_char, &mut p) == 0 && !p.is_null() {
+            let k = cstr(b"C[13]"); unsafe { (*p).get(k.as_ptr() as *mut c_char); (*p).mass(); }
+            free_chemical_composition(p);
+        }
+    }
     for line in stdin.lock().lines() {
         let line = line.unwrap();
         let v: Value = serde_json::from_str(&line).unwrap();
@@ -49,17 +86,17 @@ fn child() {
         let n = v["n"].as_i64().unwrap_or(0) as i32;
         let mut rec = json!({"op": op});
         match op {
-            "new" => { let mut p: *mut CChemicalComposition = 0xdead as *mut _; let code = CChemicalComposition::new(&mut p); rec["code"] = json!(code); rec["null"] = json!(p.is_null()); if !p.is_null() { handles.push(p); rec["handle"] = json!(handles.len() - 1); } }
-            "parse" => { let s = cstr(&bytes); let mut p: *mut CChemicalComposition = 0xdead as *mut _; let code = parse_formula(s.as_ptr() as *mut c_char, &mut p); rec["code"] = json!(code); rec["null"] = json!(p.is_null()); if !p.is_null() { handles.push(p); rec["handle"] = json!(handles.len() - 1); } }
-            "copy" => { let mut p: *mut CChemicalComposition = 0xdead as *mut _; let code = unsafe { (*h("h")).copy(&mut p) }; rec["code"] = json!(code); rec["null"] = json!(p.is_null()); if !p.is_null() { handles.push(p); rec["handle"] = json!(handles.len() - 1); } }
-            "get" => { let s = cstr(&bytes); let r = unsafe { (*h("h")).get(s.as_ptr() as *mut c_char) }; rec["value"] = json!(r); }
-            "set" => { let s = cstr(&bytes); let code = unsafe { (*h("h")).set(s.as_ptr() as *mut c_char, n) }; rec["code"] = json!(code); }
-            "increment" => { let s = cstr(&bytes); let code = unsafe { (*h("h")).increment(s.as_ptr() as *mut c_char, n) }; rec["code"] = json!(code); }
-            "add" => { let code = unsafe { (*h("h")).add(&*h("g")) }; rec["code"] = json!(code); }
-            "subtract" => { let code = unsafe { (*h("h")).subtract(&*h("g")) }; rec["code"] = json!(code); }
-            "scale" => { let code = unsafe { (*h("h")).scale(n) }; rec["code"] = json!(code); }
-            "mass" => { let m = unsafe { (*h("h")).mass() }; rec["mass"] = json!(hexf(m)); }
-            "free" => { let code = free_chemical_composition(h("h")); rec["code"] = json!(code); let i = v["h"].as_u64().unwrap() as usize; handles[i] = std::ptr::null_mut(); }
+            "new" => { let mut p: *mut CChemicalComposition = 0xdead as *mut _; let code = ffi!(rec, CChemicalComposition::new(&mut p)); rec["code"] = json!(code); rec["null"] = json!(p.is_null()); if !p.is_null() { handles.push(p); rec["handle"] = json!(handles.len() - 1); } }
+            "parse" => { let s = cstr(&bytes); let mut p: *mut CChemicalComposition = 0xdead as *mut _; let code = ffi!(rec, parse_formula(s.as_ptr() as *mut c_char, &mut p)); rec["code"] = json!(code); rec["null"] = json!(p.is_null()); if !p.is_null() { handles.push(p); rec["handle"] = json!(handles.len() - 1); } }
+            "copy" => { let mut p: *mut CChemicalComposition = 0xdead as *mut _; let code = ffi!(rec, unsafe { (*h("h")).copy(&mut p) }); rec["code"] = json!(code); rec["null"] = json!(p.is_null()); if !p.is_null() { handles.push(p); rec["handle"] = json!(handles.len() - 1); } }
+            "get" => { let s = cstr(&bytes); let r = ffi!(rec, unsafe { (*h("h")).get(s.as_ptr() as *mut c_char) }); rec["value"] = json!(r); }
+            "set" => { let s = cstr(&bytes); let code = ffi!(rec, unsafe { (*h("h")).set(s.as_ptr() as *mut c_char, n) }); rec["code"] = json!(code); }
+            "increment" => { let s = cstr(&bytes); let code = ffi!(rec, unsafe { (*h("h")).increment(s.as_ptr() as *mut c_char, n) }); rec["code"] = json!(code); }
+            "add" => { let code = ffi!(rec, unsafe { (*h("h")).add(&*h("g")) }); rec["code"] = json!(code); }
+            "subtract" => { let code = ffi!(rec, unsafe { (*h("h")).subtract(&*h("g")) }); rec["code"] = json!(code); }
+            "scale" => { let code = ffi!(rec, unsafe { (*h("h")).scale(n) }); rec["code"] = json!(code); }
+            "mass" => { let m = ffi!(rec, unsafe { (*h("h")).mass() }); rec["mass"] = json!(hexf(m)); }
+            "free" => { let code = ffi!(rec, free_chemical_composition(h("h"))); rec["code"] = json!(code); let i = v["h"].as_u64().unwrap() as usize; handles[i] = std::ptr::null_mut(); }
             _ => {}
         }
         // snapshot of every live handle through the binding itself
